@@ -93,6 +93,20 @@ func orRange(ops []string, commaOK bool) *rapid.Generator[string] {
 	return rapid.Custom(func(t *rapid.T) string {
 		nalt := rapid.SampledFrom([]int{1, 1, 1, 2, 2, 3}).Draw(t, "nalt")
 		var alts []string
+		// a fan of alternatives that share their lower bound, one of them ending
+		// at a prerelease: canonicalisation merges around the prerelease-ended
+		// span, and where the merged span is emitted decides the printed order
+		if rapid.IntRange(0, 29).Draw(t, "fan") == 0 {
+			min := rapid.SampledFrom(anchors).Draw(t, "fanmin")
+			hi := rapid.SampledFrom([]string{"3.1.3-beta", "2.0.0-alpha", "3.0.0-rc.1", "9.9.9-0"}).Draw(t, "fanhi")
+			fan := []string{
+				rapid.SampledFrom([]string{"^", "~", ">="}).Draw(t, "fanop") + min,
+				">=" + min + " <=" + hi,
+				rapid.SampledFrom([]string{">=" + min, ">=" + min + " <" + hi, min + " - 9"}).Draw(t, "fanlast"),
+			}
+			order := rapid.Permutation(fan).Draw(t, "fanorder")
+			return strings.Join(order, " || ")
+		}
 		for i := 0; i < nalt; i++ {
 			// an explicit interval between two anchor versions, each end open or
 			// closed: alternatives (and the two constraints of a pair) then share
